@@ -3,7 +3,7 @@
    parser: Model/Parser.v (frame model of TheoryParser.parse / gringo's theory-term parser), instantiated in
    Model/ParserTable.v. *)
 From Coq Require Import List Bool Arith Lia.
-Require Import GenPrelude FromTables DocTables Parser ParserTable.
+Require Import GenPrelude FromTables DocTables Parser ParserTable TheoryPrelude FormPrelude FromBodyForm BodyForm.
 (* all copies of the operator table agree with the documented one *)
 Theorem C07_tables_agree :
   same_table tel_body_table_gen documented_tel = true /\ same_table tel_head_table_gen documented_head = true /\
@@ -36,8 +36,20 @@ Proof. intros tbl. exact (parse_flat string (prio_of tbl) (lassoc_of tbl)). Qed.
 Theorem C07_parse_respects : forall (tbl : list tentry) (first : elem string) (rest : list (string * elem string)),
   respects string (prio_of tbl) (lassoc_of tbl) (parse_tbl tbl first rest).
 Proof. intros tbl. exact (parse_respects string (prio_of tbl) (lassoc_of tbl)). Qed.
+(* arithmetic in n-fold prefixes is evaluated: create_number (theory/formula.py, REGENERATED) computes + and - over non-negative literals as
+   integer arithmetic, whatever the sign of intermediate values (1-2+3 = 2); a negative literal is no number; the dispatch unary / n-fold of
+   the four prefix operators is by the number of arguments and a negative count is rejected *)
+Theorem C07_prefix_arithmetic : forall e, nwf e = true -> neval e = Some (zeval e).
+Proof. exact create_number_is_arithmetic. Qed.
+Theorem C07_prefix_negative_literal : forall n, (n < 0)%Z -> neval (NLit n) = None.
+Proof. exact create_number_rejects_negative_literals. Qed.
+Theorem C07_prefix_dispatch : forall op, In op ["<"; "<:"; ">"; ">:"]%string -> exists e, create_formula_gen op 2 = Some (true, e).
+Proof. exact negative_counts_rejected. Qed.
 Print Assumptions C07_tables_agree.
 Print Assumptions C07_theory_atoms.
 Print Assumptions C07_reduce_test.
 Print Assumptions C07_parse_flat.
 Print Assumptions C07_parse_respects.
+Print Assumptions C07_prefix_arithmetic.
+Print Assumptions C07_prefix_negative_literal.
+Print Assumptions C07_prefix_dispatch.
